@@ -1,7 +1,10 @@
+mod c10;
+mod c11;
 mod policy;
 mod props;
 mod replica;
 mod scenario;
+mod sync;
 mod txn;
 mod world;
 
@@ -17,6 +20,10 @@ fn main() {
         "C06" => props::run_c06(&ctx),
         "C08" => props::run_c08(&ctx),
         "C09" => props::run_c09(&ctx),
+        "C10" => c10::run(&ctx),
+        "C11" => c11::run(&ctx),
+        "C16" => sync::run(&ctx, "C16"),
+        "C17" => sync::run(&ctx, "C17"),
         p => {
             println!("INCONCLUSIVE vh-rt does not serve {p}");
             std::process::exit(2);
